@@ -1551,6 +1551,572 @@ fn gvar_part(rng: &mut Rng, st: &mut Stats, cw: &mut CaseWriter, thorough: bool)
     }
 }
 
+// ------------------------------------------------------------------------------------------------
+// (d) applying tuples: compute_scalar, accumulate_dense_deltas, accumulate_sparse_deltas (shards of type `acase`)
+// ------------------------------------------------------------------------------------------------
+
+type RTuple<'a> = read_fonts::tables::variations::TupleVariation<'a, read_fonts::tables::gvar::GlyphDelta>;
+
+/// tuples of glyph 0 of a compiled gvar, as read-fonts sees them
+fn apply_read_tuples(bytes: &[u8]) -> Option<Vec<RTuple<'_>>> {
+    let gvar = read_fonts::tables::gvar::Gvar::read(FontData::new(bytes)).ok()?;
+    let data = gvar.glyph_variation_data(GlyphId::new(0)).ok()??;
+    Some(data.tuples().collect())
+}
+
+fn apply_clamp14(v: i64) -> i16 {
+    v.clamp(-16384, 16384) as i16
+}
+
+/// a tent for the scalar cases; kind: 0/1 none, 2 valid, 3 start==peak, 4 peak==end, 5 all equal, 6 start>peak, 7 peak>end, 8 sign mismatch
+fn apply_tent(rng: &mut Rng, st: &mut Stats, explicit: bool) -> (i16, Option<(i16, i16)>) {
+    let peak: i16 = if rng.chance(1, 5) { rng.range(-16384, 16384) as i16 } else { *rng.pick(&[16384, -16384, 8192, -8192, 0, 4915, -12000, 1, -1]) };
+    let p = peak as i64;
+    let kind = if explicit { rng.range(1, 8) as u64 } else { 0 };
+    st.count(&format!("apply.tent_kind_{}", kind));
+    let im = match kind {
+        0 | 1 => None,
+        2 => Some(if p > 0 {
+            (rng.range(0, p), rng.range(p, 16384))
+        } else if p < 0 {
+            (rng.range(-16384, p), rng.range(p, 0))
+        } else {
+            (rng.range(-16384, 0), rng.range(0, 16384))
+        }),
+        3 => Some((p, if p >= 0 { rng.range(p, 16384) } else { rng.range(p, 0) })),
+        4 => Some((if p > 0 { rng.range(0, p) } else { rng.range(-16384, p) }, p)),
+        5 => Some((p, p)),
+        6 => Some((p + rng.range(1, 4000), p + rng.range(4000, 9000))),
+        7 => Some((p - rng.range(4000, 9000), p - rng.range(1, 4000))),
+        _ => Some((-rng.range(1, 16384), rng.range(1, 16384))),
+    };
+    (peak, im.map(|(a, b)| (apply_clamp14(a), apply_clamp14(b))))
+}
+
+/// the trivial glyph of the scalar cases: one triangle + phantoms, every delta required and non-zero
+fn apply_trivial_glyph(rng: &mut Rng, tents: Vec<Vec<(i16, Option<(i16, i16)>)>>) -> GlyphIn {
+    let coords = vec![(0, 0), (100, 0), (50, 80), (0, 0), (100, 0), (0, 0), (0, 0)];
+    let ends = vec![2, 3, 4, 5, 6];
+    let tuples = tents
+        .into_iter()
+        .map(|tents| {
+            let raw: Vec<(i64, i64)> = (0..7).map(|_| (rng.range(1, 9), rng.range(-9, -1))).collect();
+            let deltas = raw.iter().map(|d| GlyphDelta::required(d.0 as i16, d.1 as i16)).collect();
+            TupleIn { tents, raw, deltas, tol: (0, 1) }
+        })
+        .collect();
+    GlyphIn { coords, ends, tuples }
+}
+
+fn apply_scalar_part(rng: &mut Rng, st: &mut Stats, cw: &mut CaseWriter, thorough: bool) -> usize {
+    let target = if thorough { 10000 } else { 2500 };
+    let mut made = 0usize;
+    let mut guard = 0usize;
+    while made < target && guard < 100 * target {
+        guard += 1;
+        let axes = if rng.chance(1, 2) { 1 } else { rng.range(2, 3) as usize };
+        let ntuples = rng.range(1, 2) as usize;
+        // half of the tuples without any explicit intermediate region (then read-fonts takes the implied-region branch)
+        let tents: Vec<Vec<_>> = (0..ntuples)
+            .map(|_| {
+                let explicit = rng.chance(1, 2);
+                (0..axes).map(|_| apply_tent(rng, st, explicit)).collect()
+            })
+            .collect();
+        let g = apply_trivial_glyph(rng, tents);
+        st.count("apply.scalar_glyphs");
+        let bytes = match build_gvar(&[g.clone()], axes as u16) {
+            Ok(Ok(b)) => b,
+            other => {
+                st.count("apply.build_rejected");
+                st.count(if other.is_err() { "apply.build_rejected_by_panic" } else { "apply.build_rejected_by_error" });
+                continue;
+            }
+        };
+        let Some(tuples) = apply_read_tuples(&bytes) else {
+            st.count("apply.scalar_readback_failed");
+            continue;
+        };
+        if tuples.len() != g.tuples.len() {
+            st.count("apply.scalar_tuple_count_differs");
+        }
+        for t in &tuples {
+            let peaks: Vec<i16> = t.peak().values.iter().map(|v| v.get().to_bits()).collect();
+            let inter: Option<(Vec<i16>, Vec<i16>)> = t
+                .intermediate_start()
+                .zip(t.intermediate_end())
+                .map(|(s, e)| (s.values.iter().map(|v| v.get().to_bits()).collect(), e.values.iter().map(|v| v.get().to_bits()).collect()));
+            if peaks.len() != axes || inter.as_ref().map(|(s, e)| s.len() != axes || e.len() != axes).unwrap_or(false) {
+                st.count("apply.scalar_region_length_differs");
+                continue;
+            }
+            let invalid = inter
+                .as_ref()
+                .map(|(s, e)| (0..axes).any(|i| s[i] > peaks[i] || peaks[i] > e[i] || (s[i] < 0 && e[i] > 0 && peaks[i] != 0)))
+                .unwrap_or(false);
+            // candidate coordinates per axis (all of them, and the ones inside the region)
+            let region = |i: usize| -> (i64, i64, i64) {
+                let p = peaks[i] as i64;
+                match &inter {
+                    Some((s, e)) => (s[i] as i64, p, e[i] as i64),
+                    None => (p.min(0), p, p.max(0)),
+                }
+            };
+            let inside: Vec<Vec<i16>> = (0..axes)
+                .map(|i| {
+                    let (s, p, e) = region(i);
+                    let (lo, hi) = (s.min(e), s.max(e));
+                    let mut v = vec![p, p, (s + p) / 2, (p + e) / 2, rng.range(lo, hi), rng.range(lo, hi)];
+                    if p == 0 {
+                        v.push(rng.range(-16384, 16384));
+                    }
+                    v.into_iter().map(|x| x.clamp(-32768, 32767) as i16).collect()
+                })
+                .collect();
+            let cands: Vec<Vec<i16>> = (0..axes)
+                .map(|i| {
+                    let (s, p, e) = region(i);
+                    let (lo, hi) = (s.min(e), s.max(e));
+                    let mut v: Vec<i64> = vec![-16384, 0, 16384, p, s, e, s - 1, s + 1, p - 1, p + 1, e - 1, e + 1, (s + p) / 2, (p + e) / 2, rng.range(-16384, 16384), rng.range(lo, hi)];
+                    if rng.chance(1, 8) {
+                        v.push(rng.range(-32768, 32767));
+                    }
+                    let mut v: Vec<i16> = v.into_iter().map(|x| x.clamp(-32768, 32767) as i16).collect();
+                    v.sort();
+                    v.dedup();
+                    v
+                })
+                .collect();
+            let mut locs: Vec<Vec<i16>> = vec![];
+            if axes == 1 {
+                locs.extend(cands[0].iter().map(|c| vec![*c]));
+                locs.push(vec![]); // shorter than the axis count
+                locs.push(vec![*rng.pick(&cands[0]), rng.range(-16384, 16384) as i16]); // longer
+                locs.push(vec![peaks[0], 16384, -16384]);
+            } else {
+                for k in 0..20 {
+                    let mut loc: Vec<i16> = (0..axes).map(|i| *rng.pick(if k % 8 < 3 { &inside[i] } else { &cands[i] })).collect();
+                    if rng.chance(1, 6) {
+                        loc.truncate(rng.range(0, axes as i64 - 1) as usize);
+                    } else if rng.chance(1, 10) {
+                        for _ in 0..rng.range(1, 2) {
+                            loc.push(rng.range(-16384, 16384) as i16);
+                        }
+                    }
+                    locs.push(loc);
+                }
+                // the peak itself
+                locs.push(peaks.clone());
+            }
+            for loc in locs {
+                let coords: Vec<F2Dot14> = loc.iter().map(|c| f2(*c)).collect();
+                let t2 = t.clone();
+                st.evaluations += 1;
+                let res = match catch(std::panic::AssertUnwindSafe(|| t2.compute_scalar(&coords).map(|f| f.to_bits()))) {
+                    Ok(r) => r,
+                    Err(e) => {
+                        st.count("apply.scalar_panicked");
+                        st.oracle_failure(json!({"key": format!("apply:scalar:p{:?}:i{:?}:c{:?}", peaks, inter, loc), "what": "compute_scalar panics", "panic": e}));
+                        continue;
+                    }
+                };
+                let key = format!("apply:scalar:p{:?}:i{:?}:c{:?}", peaks, inter, loc);
+                st.count("apply.scalar_cases");
+                match loc.len().cmp(&axes) {
+                    std::cmp::Ordering::Less => st.count("apply.scalar_short_coords"),
+                    std::cmp::Ordering::Greater => st.count("apply.scalar_extra_coords"),
+                    _ => {}
+                }
+                st.count(match res {
+                    None => "apply.scalar_none",
+                    Some(65536) => "apply.scalar_one",
+                    Some(_) => "apply.scalar_fraction",
+                });
+                if inter.is_some() {
+                    st.count("apply.scalar_with_intermediate");
+                }
+                if invalid {
+                    st.count("apply.scalar_invalid_region");
+                    if res.is_some() {
+                        st.count("apply.scalar_invalid_region_some");
+                    }
+                }
+                if axes > 1 {
+                    st.count("apply.scalar_multi_axis");
+                }
+                // oracle
+                if let Some(v) = res {
+                    if !(0 < v && v <= 65536) {
+                        st.oracle_failure(json!({"key": key, "what": "compute_scalar returns a scalar outside (0, 1]", "peaks": peaks, "intermediate": format!("{:?}", inter), "coords": loc, "result_bits": v}));
+                    }
+                }
+                let at_peak = (0..axes).all(|i| peaks[i] == 0 || loc.get(i).copied().unwrap_or(0) == peaks[i]);
+                if at_peak {
+                    st.count("apply.scalar_at_peak");
+                    if res != Some(65536) {
+                        st.oracle_failure(json!({"key": key, "what": "compute_scalar at the peak is not 1.0", "peaks": peaks, "intermediate": format!("{:?}", inter), "coords": loc, "result_bits": format!("{:?}", res)}));
+                    }
+                }
+                if matches!(res, Some(v) if v != 65536) {
+                    st.nontrivial(&key);
+                }
+                cw.push(format!(
+                    "AScalar {} {} {} {}",
+                    czlist(loc.iter().map(|c| *c as i128)),
+                    czlist(peaks.iter().map(|c| *c as i128)),
+                    copt(inter.as_ref().map(|(s, e)| format!("({}, {})", czlist(s.iter().map(|c| *c as i128)), czlist(e.iter().map(|c| *c as i128))))),
+                    copt(res.map(|v| cz(v as i128)))
+                ));
+                made += 1;
+            }
+        }
+    }
+    made
+}
+
+const APPLY_SCALARS: [i32; 9] = [65536, 0, 1, -65536, 0x5EB8, -0x1_8000, 32768, 65535, 65537];
+
+fn apply_scalar_arg(rng: &mut Rng, k: usize) -> i32 {
+    if k % 11 < APPLY_SCALARS.len() {
+        APPLY_SCALARS[k % 11]
+    } else {
+        rng.range(-131072, 131072) as i32
+    }
+}
+
+fn apply_delta_value(rng: &mut Rng) -> i16 {
+    match rng.below(10) {
+        0..=3 => rng.range(-5, 5) as i16,
+        4 => *rng.pick(&[127, 128, -127, -128, -129, 129]),
+        5 => *rng.pick(&[32767, -32768, -32767, 32766]),
+        6 => *rng.pick(&[255, 256, -255, -256, 16384, -16384]),
+        7 => 0,
+        _ => rng.range(-32768, 32767) as i16,
+    }
+}
+
+fn apply_fixed_bits(rng: &mut Rng) -> i32 {
+    match rng.below(8) {
+        0 => i32::MIN + rng.range(0, 70000) as i32,
+        1 => i32::MAX - rng.range(0, 70000) as i32,
+        2 => rng.range(-300, 300) as i32,
+        3 => (rng.range(-2000, 2000) as i32) << 16,
+        4 => *rng.pick(&[i32::MIN, i32::MAX, 0, -1, 1, 0x7FFF_0000, -0x8000_0000 + 0x1_0000]),
+        _ => rng.next_u32() as i32,
+    }
+}
+
+/// a glyph with n points (n - 4 in one contour + 4 phantoms) and the given per-tuple deltas, one axis
+fn apply_glyph(n: usize, tuple_deltas: Vec<Vec<GlyphDelta>>) -> GlyphIn {
+    let nc = n - 4;
+    let mut coords: Vec<(i64, i64)> = (0..nc).map(|i| ((i as i64 * 37) % 200, (i as i64 * 91) % 300)).collect();
+    coords.extend([(0, 0), (500, 0), (0, 0), (0, 0)]);
+    let ends = vec![nc - 1, nc, nc + 1, nc + 2, nc + 3];
+    let peaks = [16384i16, 8192, -16384, -8192];
+    let tuples = tuple_deltas
+        .into_iter()
+        .enumerate()
+        .map(|(i, deltas)| TupleIn { tents: vec![(peaks[i % 4], None)], raw: deltas.iter().map(|d| (d.x as i64, d.y as i64)).collect(), deltas, tol: (0, 1) })
+        .collect();
+    GlyphIn { coords, ends, tuples }
+}
+
+/// (d as i64 * scalar) reduced to i32 two's complement, added to old with wrapping
+fn apply_expected(old: i32, d: i32, scalar: i32) -> i32 {
+    let prod = (d as i128) * (scalar as i128);
+    ((old as i128 + prod) as i64) as i32
+}
+
+fn apply_dense_part(rng: &mut Rng, st: &mut Stats, cw: &mut CaseWriter, thorough: bool) -> usize {
+    use read_fonts::types::{Fixed, Point as RPoint};
+    let target = if thorough { 2800 } else { 700 };
+    let mut made = 0usize;
+    let mut guard = 0usize;
+    while made < target && guard < 100 * target {
+        guard += 1;
+        let n = rng.range(7, 20) as usize;
+        let ntuples = rng.range(1, 2) as usize;
+        let tuple_deltas: Vec<Vec<GlyphDelta>> = (0..ntuples)
+            .map(|_| {
+                let mut v: Vec<GlyphDelta> = (0..n).map(|_| GlyphDelta::required(apply_delta_value(rng), apply_delta_value(rng))).collect();
+                if v.iter().all(|d| d.x == 0 && d.y == 0) {
+                    v[0] = GlyphDelta::required(3, -4);
+                }
+                v
+            })
+            .collect();
+        let g = apply_glyph(n, tuple_deltas);
+        let bytes = match build_gvar(&[g.clone()], 1) {
+            Ok(Ok(b)) => b,
+            _ => {
+                st.count("apply.build_rejected");
+                st.count("apply.dense_build_rejected");
+                continue;
+            }
+        };
+        let Some(tuples) = apply_read_tuples(&bytes) else {
+            st.count("apply.dense_readback_failed");
+            continue;
+        };
+        for t in &tuples {
+            if !t.has_deltas_for_all_points() {
+                st.count("apply.dense_not_written_dense");
+                continue;
+            }
+            let mut xs = vec![];
+            let mut ys = vec![];
+            let mut in_order = true;
+            for (i, d) in t.deltas().enumerate() {
+                in_order &= d.position as usize == i;
+                xs.push(d.x_delta);
+                ys.push(d.y_delta);
+            }
+            if xs.len() != n || !in_order {
+                st.count("apply.dense_delta_count_differs");
+                continue;
+            }
+            for _ in 0..5 {
+                let scalar = apply_scalar_arg(rng, made);
+                let random_init = made % 2 == 1;
+                let init: Vec<(i32, i32)> = (0..n).map(|_| if random_init { (apply_fixed_bits(rng), apply_fixed_bits(rng)) } else { (0, 0) }).collect();
+                let mut acc: Vec<RPoint<Fixed>> = init.iter().map(|(x, y)| RPoint::new(Fixed::from_bits(*x), Fixed::from_bits(*y))).collect();
+                let t2 = t.clone();
+                st.evaluations += 1;
+                let res = catch(std::panic::AssertUnwindSafe(|| t2.accumulate_dense_deltas(&mut acc, Fixed::from_bits(scalar)).is_ok()));
+                let key = format!("apply:dense:s{}:x{:?}:y{:?}:i{:?}", scalar, xs, ys, init);
+                let ok = match res {
+                    Ok(ok) => ok,
+                    Err(e) => {
+                        st.count("apply.dense_panicked");
+                        st.sample(json!({"apply_dense_panic": e, "key": key}));
+                        continue;
+                    }
+                };
+                let out: Vec<(i32, i32)> = acc.iter().map(|p| (p.x.to_bits(), p.y.to_bits())).collect();
+                st.count("apply.dense_cases");
+                st.count(if scalar == 65536 { "apply.dense_scalar_one_path" } else { "apply.dense_scaled_path" });
+                st.count(if random_init { "apply.dense_random_init" } else { "apply.dense_zero_init" });
+                if !ok {
+                    st.count("apply.dense_err");
+                }
+                if ok {
+                    let mut wrapped = false;
+                    for i in 0..n {
+                        let want = (apply_expected(init[i].0, xs[i], scalar), apply_expected(init[i].1, ys[i], scalar));
+                        wrapped |= (init[i].0 as i128 + xs[i] as i128 * scalar as i128) != want.0 as i128 || (init[i].1 as i128 + ys[i] as i128 * scalar as i128) != want.1 as i128;
+                        if xs[i].abs() < 32768 && ys[i].abs() < 32768 && out[i] != want {
+                            st.oracle_failure(json!({"key": key, "what": "accumulate_dense_deltas: new value is not old + delta * scalar (wrapping, exact)", "point": i,
+                                "scalar_bits": scalar, "delta": [xs[i], ys[i]], "old": [init[i].0, init[i].1], "got": [out[i].0, out[i].1], "want": [want.0, want.1]}));
+                            break;
+                        }
+                    }
+                    if wrapped {
+                        st.count("apply.dense_wrapping_add");
+                    }
+                }
+                if scalar != 65536 && scalar != 0 {
+                    st.nontrivial(&key);
+                }
+                cw.push(format!(
+                    "ADense {} {} {} {} {} {}",
+                    cz(scalar as i128),
+                    czlist(xs.iter().map(|v| *v as i128)),
+                    czlist(ys.iter().map(|v| *v as i128)),
+                    clist(init.iter(), |(x, y)| format!("({}, {})", cz(*x as i128), cz(*y as i128))),
+                    cbool(ok),
+                    clist(out.iter(), |(x, y)| format!("({}, {})", cz(*x as i128), cz(*y as i128)))
+                ));
+                made += 1;
+            }
+        }
+    }
+    made
+}
+
+fn apply_sparse_part(rng: &mut Rng, st: &mut Stats, cw: &mut CaseWriter, thorough: bool) -> usize {
+    use read_fonts::tables::glyf::{PointFlags, PointMarker};
+    use read_fonts::types::{Fixed, Point as RPoint};
+    let target = if thorough { 3600 } else { 900 };
+    let mut made = 0usize;
+    let mut guard = 0usize;
+    while made < target && guard < 100 * target {
+        guard += 1;
+        let n = rng.range(7, 20) as usize;
+        let ntuples = rng.range(1, 2) as usize;
+        let share = ntuples == 2 && rng.chance(1, 2);
+        // required set: 1..n-1 points (few, so that the sparse form is the smaller one)
+        let pick_req = |rng: &mut Rng| -> Vec<bool> {
+            let k = rng.range(1, (n as i64 / 2).max(1)) as usize;
+            let mut idx: Vec<usize> = (0..n).collect();
+            rng.shuffle(&mut idx);
+            let mut r = vec![false; n];
+            for i in &idx[..k] {
+                r[*i] = true;
+            }
+            r
+        };
+        let first_req = pick_req(rng);
+        let tuple_deltas: Vec<Vec<GlyphDelta>> = (0..ntuples)
+            .map(|ti| {
+                let req = if ti == 0 || share { first_req.clone() } else { pick_req(rng) };
+                (0..n)
+                    .map(|i| {
+                        if req[i] {
+                            GlyphDelta::required(apply_delta_value(rng), apply_delta_value(rng))
+                        } else {
+                            // costly optional deltas: the dense form would need words for them
+                            GlyphDelta::optional(rng.range(200, 3000) as i16, rng.range(-3000, -200) as i16)
+                        }
+                    })
+                    .collect()
+            })
+            .collect();
+        let g = apply_glyph(n, tuple_deltas);
+        let bytes = match build_gvar(&[g.clone()], 1) {
+            Ok(Ok(b)) => b,
+            _ => {
+                st.count("apply.build_rejected");
+                st.count("apply.sparse_build_rejected");
+                continue;
+            }
+        };
+        let Some(tuples) = apply_read_tuples(&bytes) else {
+            st.count("apply.sparse_readback_failed");
+            continue;
+        };
+        for t in &tuples {
+            if t.has_deltas_for_all_points() {
+                st.count("apply.sparse_written_dense_skipped");
+                continue;
+            }
+            let pts: Vec<u16> = t.point_numbers().collect();
+            let ds: Vec<(u16, i32, i32)> = t.deltas().map(|d| (d.position, d.x_delta, d.y_delta)).collect();
+            if ds.len() != pts.len() || ds.iter().zip(&pts).any(|(d, p)| d.0 != *p) {
+                st.count("apply.sparse_points_and_deltas_differ");
+                continue;
+            }
+            st.count(if share { "apply.sparse_tuples_shared_candidate" } else { "apply.sparse_tuples_private_candidate" });
+            let xs: Vec<i32> = ds.iter().map(|d| d.1).collect();
+            let ys: Vec<i32> = ds.iter().map(|d| d.2).collect();
+            for _ in 0..6 {
+                let scalar = apply_scalar_arg(rng, made);
+                let len = match rng.below(10) {
+                    0..=4 => n,
+                    5 => n.saturating_sub(2),
+                    6 => 1,
+                    7 => 0,
+                    8 => n + 3,
+                    _ => rng.range(0, n as i64 + 3) as usize,
+                };
+                let random_init = rng.chance(1, 2);
+                let premark = rng.chance(1, 3);
+                let init: Vec<(i32, i32, bool)> = (0..len)
+                    .map(|_| {
+                        let (x, y) = if random_init { (apply_fixed_bits(rng), apply_fixed_bits(rng)) } else { (0, 0) };
+                        (x, y, premark && rng.chance(1, 3))
+                    })
+                    .collect();
+                let mut acc: Vec<RPoint<Fixed>> = init.iter().map(|(x, y, _)| RPoint::new(Fixed::from_bits(*x), Fixed::from_bits(*y))).collect();
+                let mut flags: Vec<PointFlags> = init
+                    .iter()
+                    .map(|(_, _, m)| {
+                        let mut f = PointFlags::default();
+                        if *m {
+                            f.set_marker(PointMarker::HAS_DELTA);
+                        }
+                        f
+                    })
+                    .collect();
+                let t2 = t.clone();
+                st.evaluations += 1;
+                let res = catch(std::panic::AssertUnwindSafe(|| t2.accumulate_sparse_deltas(&mut acc, &mut flags, Fixed::from_bits(scalar)).is_ok()));
+                let key = format!("apply:sparse:s{}:p{:?}:x{:?}:y{:?}:i{:?}", scalar, pts, xs, ys, init);
+                let ok = match res {
+                    Ok(ok) => ok,
+                    Err(e) => {
+                        st.count("apply.sparse_panicked");
+                        st.sample(json!({"apply_sparse_panic": e, "key": key}));
+                        continue;
+                    }
+                };
+                let out: Vec<(i32, i32, bool)> = acc.iter().zip(&flags).map(|(p, f)| (p.x.to_bits(), p.y.to_bits(), f.has_marker(PointMarker::HAS_DELTA))).collect();
+                st.count("apply.sparse_cases");
+                st.count(if scalar == 65536 { "apply.sparse_scalar_one_path" } else { "apply.sparse_scaled_path" });
+                match len.cmp(&n) {
+                    std::cmp::Ordering::Less => st.count("apply.sparse_short_buffer"),
+                    std::cmp::Ordering::Greater => st.count("apply.sparse_long_buffer"),
+                    _ => st.count("apply.sparse_exact_buffer"),
+                }
+                if pts.iter().any(|p| *p as usize >= len) {
+                    st.count("apply.sparse_point_out_of_range_skipped");
+                }
+                if premark {
+                    st.count("apply.sparse_premarked_flags");
+                }
+                if !ok {
+                    st.count("apply.sparse_err");
+                }
+                if ok {
+                    let mut want: Vec<(i32, i32, bool)> = init.clone();
+                    for (j, p) in pts.iter().enumerate() {
+                        if let Some(w) = want.get_mut(*p as usize) {
+                            *w = (apply_expected(w.0, xs[j], scalar), apply_expected(w.1, ys[j], scalar), true);
+                        }
+                    }
+                    let small = xs.iter().chain(ys.iter()).all(|d| d.abs() < 32768);
+                    if small && want != out {
+                        let i = (0..len).find(|i| want[*i] != out[*i]).unwrap_or(0);
+                        st.oracle_failure(json!({"key": key, "what": "accumulate_sparse_deltas: referenced entries must be old + delta * scalar (wrapping, exact) with HAS_DELTA set, all others untouched",
+                            "entry": i, "scalar_bits": scalar, "points": pts, "xs": xs, "ys": ys, "old": format!("{:?}", init.get(i)), "got": format!("{:?}", out.get(i)), "want": format!("{:?}", want.get(i))}));
+                    }
+                }
+                st.nontrivial(&key);
+                let trip = |v: &[(i32, i32, bool)]| clist(v.iter(), |(x, y, m)| format!("({}, {}, {})", cz(*x as i128), cz(*y as i128), cbool(*m)));
+                cw.push(format!(
+                    "ASparse {} {} {} {} {} {} {}",
+                    cz(scalar as i128),
+                    czlist(pts.iter().map(|v| *v as i128)),
+                    czlist(xs.iter().map(|v| *v as i128)),
+                    czlist(ys.iter().map(|v| *v as i128)),
+                    trip(&init),
+                    cbool(ok),
+                    trip(&out)
+                ));
+                made += 1;
+            }
+        }
+    }
+    made
+}
+
+/// Second family of shards (`acase`, checked by C10.ApplyModel.check_acase): the real `compute_scalar`,
+/// `accumulate_dense_deltas` and `accumulate_sparse_deltas` on tuples built by write-fonts and read back by read-fonts.
+/// Written as `cases_<first_shard_index + k>.v` next to the shards of the first writer. Returns (cases, shards).
+fn apply_part(rng: &mut Rng, st: &mut Stats, dir: &std::path::Path, first_shard_index: usize, thorough: bool) -> (usize, usize) {
+    let tmp = dir.join("apply_tmp");
+    let mut cw = CaseWriter::new(
+        &tmp,
+        "From Coq Require Import ZArith List. Import ListNotations. Open Scope Z_scope.\nFrom FV Require Import Lib.Cases C10.ApplyModel.",
+        "acase",
+        "check_acase",
+        400,
+    );
+    let ns = apply_scalar_part(rng, st, &mut cw, thorough);
+    let nd = apply_dense_part(rng, st, &mut cw, thorough);
+    let np = apply_sparse_part(rng, st, &mut cw, thorough);
+    st.v.insert("apply_scalar_cases".into(), ns.into());
+    st.v.insert("apply_dense_cases".into(), nd.into());
+    st.v.insert("apply_sparse_cases".into(), np.into());
+    let shards = cw.finish();
+    for k in 0..shards {
+        std::fs::rename(tmp.join(format!("cases_{}.v", k)), dir.join(format!("cases_{}.v", first_shard_index + k))).unwrap();
+    }
+    let _ = std::fs::remove_dir_all(&tmp);
+    st.v.insert("apply_first_shard".into(), first_shard_index.into());
+    st.v.insert("apply_shards".into(), shards.into());
+    (cw.len(), shards)
+}
+
 fn main() {
     if std::env::var("C10_DEBUG").is_err() {
         silence_panics();
@@ -1573,13 +2139,17 @@ fn main() {
     gvar_part(&mut rng, &mut st, &mut cw, thorough);
     c10_draw::draw_part(&mut rng, &mut st, thorough);
     let shards = cw.finish();
+    let (apply_cases, apply_shards) = apply_part(&mut rng, &mut st, &dir, shards, thorough);
+    let shards = shards + apply_shards;
+    let (iupapply_cases, iupapply_shards) = c10_draw::iup_apply_part(&mut rng, &mut st, &dir, shards, thorough);
+    let shards = shards + iupapply_shards;
     st.v.insert("shards".into(), shards.into());
-    st.v.insert("model_cases".into(), cw.len().into());
+    st.v.insert("model_cases".into(), (cw.len() + apply_cases + iupapply_cases).into());
     st.write(
         &dir,
-        "codecs: boundary vectors (runs of 62..66/127..130 per class, zeros in byte runs, bytes in word runs, i32) + random class-segmented vectors; point sets with gaps 0/1/127/128/254..257 and counts 126..130/255..257, unsorted sets, arbitrary byte streams through both readers; IUP: exhaustive 1-2 point contours over {-2..2}^2 x 3 tolerances (n=2 one third in quick), 3 points over {-1..1}^2, random 3-6 point and glyph-like 4-40 point contours; gvar: random glyph sets through Gvar::new/dump_table/read-fonts, one long-offset table; non-trivial = >2 values (codecs), some-but-not-all deltas optional (IUP), glyph with tuples (gvar)",
+        "codecs: boundary vectors (runs of 62..66/127..130 per class, zeros in byte runs, bytes in word runs, i32) + random class-segmented vectors; point sets with gaps 0/1/127/128/254..257 and counts 126..130/255..257, unsorted sets, arbitrary byte streams through both readers; IUP: exhaustive 1-2 point contours over {-2..2}^2 x 3 tolerances (n=2 one third in quick), 3 points over {-1..1}^2, random 3-6 point and glyph-like 4-40 point contours; gvar: random glyph sets through Gvar::new/dump_table/read-fonts, one long-offset table; non-trivial = >2 values (codecs), some-but-not-all deltas optional (IUP), glyph with tuples (gvar); apply (round 7): real TupleVariation::compute_scalar at boundary locations (-1, 0, +1, start/peak/end and +-1 unit, invalid regions, short/long coords), accumulate_dense/sparse_deltas::<Fixed> with boundary scalars, wrapping accumulators, short/long buffers; iupapply: unscaled FreeType-style draws of simple glyphs with sparse tuples (single-reference contours, unreferenced contours, equal reference coordinates, phantom references) compared point-exactly with the model",
     );
-    println!("cases={} shards={} oracle_failures={}", cw.len(), shards, st.oracle_failures.len());
+    println!("cases={} (apply: {}, iupapply: {}) shards={} (apply: {}, iupapply: {}) oracle_failures={}", cw.len() + apply_cases + iupapply_cases, apply_cases, iupapply_cases, shards, apply_shards, iupapply_shards, st.oracle_failures.len());
 }
 
 /// drawing through skrifa (oracle only): a FontBuilder-assembled variable TrueType font is drawn unscaled and
@@ -1845,6 +2415,346 @@ mod c10_draw {
     /// them (both orders, optional component-offset deltas), drawn unscaled at many locations in shuffled sequences, with
     /// fresh memory or through ONE reused caller-provided buffer, in both path styles (two scaler implementations).
     /// Expected = base outline + sum scalar * delta; nothing for glyphs without data.
+    // --------------------------------------------------------------------------------------------
+    // (e) inference of missing deltas through the unscaled draw (shards of type `gcase`, C10.IupApplyModel)
+    // --------------------------------------------------------------------------------------------
+
+    fn iupapply_delta(rng: &mut Rng) -> (i64, i64) {
+        match rng.below(4) {
+            0 => (rng.range(-20, 20), rng.range(-20, 20)),
+            1 => (rng.range(-3000, 3000), rng.range(-3000, 3000)),
+            2 => (rng.range(-300, 300), 0),
+            _ => (rng.range(-100, 100), rng.range(-100, 100)),
+        }
+    }
+
+    /// hand-made glyph: 1-3 contours of 3-8 points on a small grid (equal coordinates among points are frequent) and 1-4 tuples
+    /// whose referenced (required) points follow a per-contour pattern: none / one (any, first, last) / a pair (preferably sharing
+    /// x or y, with equal or different deltas) / a subset / all.
+    fn iupapply_hand_glyph(rng: &mut Rng, axis_count: usize) -> GlyphIn {
+        let ncont = rng.range(1, 3) as usize;
+        let mut coords: Vec<(i64, i64)> = vec![];
+        let mut ends = vec![];
+        let grid = [-50i64, -20, 0, 10, 50];
+        for _ in 0..ncont {
+            let n = rng.range(3, 8) as usize;
+            for _ in 0..n {
+                let x = if rng.chance(1, 2) { *rng.pick(&grid) } else { rng.range(-50, 50) };
+                let y = if rng.chance(1, 2) { *rng.pick(&grid) } else { rng.range(-50, 50) };
+                coords.push((x, y));
+            }
+            ends.push(coords.len() - 1);
+        }
+        let npts = coords.len();
+        coords.extend([(0, 0), (rng.range(60, 200), 0), (0, 0), (0, 0)]);
+        let real_ends = ends.clone();
+        for k in 0..4 {
+            ends.push(npts + k);
+        }
+        let ntup = rng.range(1, 4) as usize;
+        let mut tuples = vec![];
+        for _ in 0..ntup {
+            let tents: Vec<_> = loop {
+                let t: Vec<_> = (0..axis_count).map(|_| random_tent(rng)).collect();
+                if t.iter().any(|x| x.0 != 0) {
+                    break t;
+                }
+            };
+            let mut req = vec![false; npts + 4];
+            let mut val: Vec<(i64, i64)> = (0..npts + 4).map(|_| (rng.range(200, 3000), rng.range(-3000, -200))).collect();
+            let mut start = 0usize;
+            for &e in &real_ends {
+                let idx: Vec<usize> = (start..=e).collect();
+                match rng.below(8) {
+                    0 | 1 => {} // contour without any referenced point
+                    2 => req[*rng.pick(&idx)] = true,
+                    3 => req[start] = true,
+                    4 => req[e] = true,
+                    5 => {
+                        // a pair, preferably sharing a coordinate
+                        let mut pairs = vec![];
+                        for a in &idx {
+                            for b in &idx {
+                                if a < b && (coords[*a].0 == coords[*b].0 || coords[*a].1 == coords[*b].1) {
+                                    pairs.push((*a, *b));
+                                }
+                            }
+                        }
+                        let (a, b) = if pairs.is_empty() || rng.chance(1, 4) {
+                            let a = *rng.pick(&idx);
+                            let b = *rng.pick(&idx);
+                            (a, b)
+                        } else {
+                            *rng.pick(&pairs)
+                        };
+                        req[a] = true;
+                        req[b] = true;
+                        val[a] = iupapply_delta(rng);
+                        val[b] = if rng.chance(1, 2) { val[a] } else { iupapply_delta(rng) };
+                        start = e + 1;
+                        continue;
+                    }
+                    6 => {
+                        for i in &idx {
+                            if rng.chance(1, 2) {
+                                req[*i] = true;
+                            }
+                        }
+                    }
+                    _ => {
+                        for i in &idx {
+                            req[*i] = true;
+                        }
+                    }
+                }
+                for i in &idx {
+                    if req[*i] {
+                        val[*i] = iupapply_delta(rng);
+                    }
+                }
+                start = e + 1;
+            }
+            for k in 0..4 {
+                if rng.chance(1, 5) {
+                    req[npts + k] = true;
+                    val[npts + k] = (rng.range(-40, 40), 0);
+                }
+            }
+            if !req.iter().any(|r| *r) {
+                let i = rng.range(0, npts as i64 - 1) as usize;
+                req[i] = true;
+                val[i] = iupapply_delta(rng);
+            }
+            if req.iter().all(|r| *r) {
+                req[npts + 3] = false;
+            }
+            let deltas: Vec<GlyphDelta> = (0..npts + 4).map(|i| if req[i] { GlyphDelta::required(val[i].0 as i16, val[i].1 as i16) } else { GlyphDelta::optional(val[i].0 as i16, val[i].1 as i16) }).collect();
+            tuples.push(TupleIn { tents, raw: val, deltas, tol: (1, 1) });
+        }
+        GlyphIn { coords, ends, tuples }
+    }
+
+    /// Third family of shards (`gcase`, checked by C10.IupApplyModel.check_gcase): simple glyphs drawn by skrifa unscaled,
+    /// unhinted, PathStyle::FreeType, next to the active tuples (read back with read-fonts, scalar from the real compute_scalar).
+    /// Returns (cases, shards).
+    pub fn iup_apply_part(rng: &mut Rng, st: &mut Stats, dir: &std::path::Path, first_shard_index: usize, thorough: bool) -> (usize, usize) {
+        use read_fonts::TableProvider;
+        use skrifa::outline::pen::PathStyle;
+        let tmp = dir.join("iupapply_tmp");
+        let mut cw = CaseWriter::new(
+            &tmp,
+            "From Coq Require Import ZArith List. Import ListNotations. Open Scope Z_scope.\nFrom FV Require Import Lib.Cases C10.ApplyModel C10.IupApplyModel.",
+            "gcase",
+            "check_gcase",
+            150,
+        );
+        let target = if thorough { 1800 } else { 600 };
+        let mut made = 0usize;
+        let mut no_active = 0usize;
+        let mut guard = 0usize;
+        while made < target && guard < 50 * target {
+            guard += 1;
+            let axis_count = rng.range(1, 2) as usize;
+            let nglyphs = rng.range(1, 3) as usize;
+            let mut glyphs: Vec<GlyphIn> = vec![];
+            for _ in 0..nglyphs {
+                let g = if rng.chance(3, 5) {
+                    st.count("iupapply.hand_glyphs");
+                    iupapply_hand_glyph(rng, axis_count)
+                } else {
+                    st.count("iupapply.random_glyphs");
+                    let mut g = random_glyph(rng, axis_count, false);
+                    g.tuples.truncate(4);
+                    g
+                };
+                if g.coords.len() <= 28 && g.coords.len() > 4 {
+                    glyphs.push(g);
+                }
+            }
+            if glyphs.is_empty() {
+                continue;
+            }
+            let comps = vec![None; glyphs.len()];
+            let bytes = match build_font(&glyphs, &comps, axis_count) {
+                Ok(b) => b,
+                Err(_) => {
+                    st.count("iupapply.font_build_failed");
+                    continue;
+                }
+            };
+            let Ok(font) = skrifa::FontRef::new(&bytes) else {
+                st.count("iupapply.font_parse_failed");
+                continue;
+            };
+            let Ok(gvar) = font.gvar() else {
+                st.count("iupapply.gvar_missing");
+                continue;
+            };
+            let og = font.outline_glyphs();
+            for (gi, g) in glyphs.iter().enumerate() {
+                let n = g.coords.len();
+                let n_outline = n - 4;
+                let real_ends: Vec<usize> = g.ends.iter().copied().filter(|e| *e < n_outline).collect();
+                let Some(glyph) = og.get(GlyphId::new(gi as u32)) else {
+                    st.count("iupapply.outline_glyph_missing");
+                    continue;
+                };
+                let tuples: Vec<_> = match gvar.glyph_variation_data(GlyphId::new(gi as u32)) {
+                    Ok(Some(d)) => d.tuples().collect(),
+                    Ok(None) => vec![],
+                    Err(_) => {
+                        st.count("iupapply.glyph_variation_data_failed");
+                        continue;
+                    }
+                };
+                // locations: peaks, 0, halves, region bounds, random
+                let mut cand: Vec<Vec<i16>> = vec![vec![0, 16384, -16384]; axis_count];
+                for t in &g.tuples {
+                    for (i, (p, im)) in t.tents.iter().enumerate() {
+                        cand[i].extend([*p, *p, p / 2, p / 3]);
+                        if let Some((a, b)) = im {
+                            cand[i].extend([*a, *b, ((*a as i32 + *p as i32) / 2) as i16, ((*b as i32 + *p as i32) / 2) as i16]);
+                        }
+                    }
+                }
+                let nloc = 5;
+                for _ in 0..nloc {
+                    if made >= target {
+                        break;
+                    }
+                    let loc: Vec<i16> = (0..axis_count).map(|i| if rng.chance(1, 5) { rng.range(-16384, 16384) as i16 } else { *rng.pick(&cand[i]) }).collect();
+                    let locf: Vec<F2Dot14> = loc.iter().map(|b| F2Dot14::from_bits(*b)).collect();
+                    // active tuples, in gvar order
+                    let mut active: Vec<(i32, Option<Vec<u16>>, Vec<i32>, Vec<i32>)> = vec![];
+                    for t in &tuples {
+                        let Some(s) = t.compute_scalar(&locf) else { continue };
+                        let pts = if t.has_deltas_for_all_points() { None } else { Some(t.point_numbers().collect::<Vec<u16>>()) };
+                        let (xs, ys): (Vec<i32>, Vec<i32>) = t.deltas().map(|d| (d.x_delta, d.y_delta)).unzip();
+                        active.push((s.to_bits(), pts, xs, ys));
+                    }
+                    if active.is_empty() {
+                        if no_active * 12 > made + 12 {
+                            continue;
+                        }
+                        no_active += 1;
+                    }
+                    st.evaluations += 1;
+                    let mut pen = Pts::default();
+                    let res = catch(std::panic::AssertUnwindSafe(|| {
+                        let ds = DrawSettings::unhinted(Size::unscaled(), LocationRef::new(&locf)).with_path_style(PathStyle::FreeType);
+                        glyph.draw(ds, &mut pen).map(|_| ()).map_err(|e| format!("{e}"))
+                    }));
+                    let key = format!("iupapply:{:?}:{:?}:{:?}:loc{:?}", &g.coords, real_ends, active, loc);
+                    if !matches!(res, Ok(Ok(()))) {
+                        st.count("iupapply.draw_failed");
+                        st.oracle_failure(json!({"key": format!("{}:draw", key), "what": "unscaled draw of a simple glyph fails", "res": format!("{:?}", res)}));
+                        continue;
+                    }
+                    if pen.0.len() != n_outline || pen.1 != 0 {
+                        st.count("iupapply.skipped_point_count");
+                        continue;
+                    }
+                    if pen.0.iter().any(|p| p.0.fract() != 0.0 || p.1.fract() != 0.0) {
+                        st.count("iupapply.skipped_fractional");
+                        continue;
+                    }
+                    let drawn: Vec<(i64, i64)> = pen.0.iter().map(|p| (p.0 as i64, p.1 as i64)).collect();
+                    st.count("iupapply.cases");
+                    if active.is_empty() {
+                        st.count("iupapply.no_active_tuple");
+                    }
+                    if active.len() > 1 {
+                        st.count("iupapply.several_active_tuples");
+                    }
+                    if drawn.iter().zip(&g.coords).any(|(a, b)| a != b) {
+                        st.count("iupapply.outline_moved");
+                    }
+                    for (_, pts, _, _) in &active {
+                        let Some(pts) = pts else {
+                            st.count("iupapply.dense_tuples");
+                            continue;
+                        };
+                        st.count("iupapply.sparse_tuples");
+                        if pts.iter().any(|p| *p as usize >= n_outline) {
+                            st.count("iupapply.sparse_refs_phantom");
+                        }
+                        let mut start = 0usize;
+                        for &e in &real_ends {
+                            let refs: Vec<usize> = (start..=e).filter(|i| pts.contains(&(*i as u16))).collect();
+                            match refs.len() {
+                                0 => st.count("iupapply.contour_without_ref"),
+                                1 => st.count("iupapply.single_ref_contour"),
+                                _ => {
+                                    st.count("iupapply.multi_ref_contour");
+                                    if refs.len() < e + 1 - start {
+                                        st.count("iupapply.contour_with_inferred_points");
+                                    }
+                                    for k in 0..refs.len() {
+                                        let (a, b) = (refs[k], refs[(k + 1) % refs.len()]);
+                                        if g.coords[a].0 == g.coords[b].0 || g.coords[a].1 == g.coords[b].1 {
+                                            st.count("iupapply.equal_ref_coords");
+                                            break;
+                                        }
+                                    }
+                                }
+                            }
+                            start = e + 1;
+                        }
+                    }
+                    // oracle: a single active sparse tuple leaves its explicit deltas on the referenced points
+                    if let [(scalar, Some(pts), xs, ys)] = &active[..] {
+                        st.count("iupapply.oracle_single_sparse");
+                        // ScaledOutline::new (skrifa outline.rs:142) subtracts the final phantom[0].x (base 0 in these fonts + its
+                        // rounded delta; phantom points are in no contour, so only an explicit reference moves them) from every x
+                        let ph0: i64 = pts.iter().enumerate().filter(|(_, p)| **p as usize == n_outline).map(|(j, _)| xs[j] as i64 * *scalar as i64).sum();
+                        let ph0_shift = g.coords[n_outline].0 + ((ph0 + 0x8000) >> 16);
+                        if ph0_shift != 0 {
+                            st.count("iupapply.oracle_phantom0_shift");
+                        }
+                        for (j, p) in pts.iter().enumerate() {
+                            let i = *p as usize;
+                            if i >= n_outline || pts.iter().filter(|q| *q == p).count() != 1 {
+                                continue;
+                            }
+                            let rnd = |d: i32| (d as i64 * *scalar as i64 + 0x8000) >> 16;
+                            let want = (g.coords[i].0 + rnd(xs[j]) - ph0_shift, g.coords[i].1 + rnd(ys[j]));
+                            if drawn[i] != want {
+                                st.oracle_failure(json!({"key": format!("{}:ref", key), "what": "referenced point of the only active (sparse) tuple is not drawn at base + round(delta * scalar) - phantom[0].x", "phantom0_shift": ph0_shift,
+                                    "point": i, "base": [g.coords[i].0, g.coords[i].1], "delta": [xs[j], ys[j]], "scalar_bits": scalar, "drawn": [drawn[i].0, drawn[i].1], "want": [want.0, want.1], "loc": loc}));
+                                break;
+                            }
+                        }
+                    }
+                    st.nontrivial(&key);
+                    let cpts = |v: &[(i64, i64)]| clist(v.iter(), |(x, y)| format!("({}, {})", cz(*x as i128), cz(*y as i128)));
+                    cw.push(format!(
+                        "GDraw {} {} {} {}",
+                        cpts(&g.coords),
+                        czlist(real_ends.iter().map(|e| *e as i128)),
+                        clist(active.iter(), |(s, pts, xs, ys)| format!(
+                            "({}, {}, {}, {})",
+                            cz(*s as i128),
+                            copt(pts.as_ref().map(|p| czlist(p.iter().map(|v| *v as i128)))),
+                            czlist(xs.iter().map(|v| *v as i128)),
+                            czlist(ys.iter().map(|v| *v as i128))
+                        )),
+                        cpts(&drawn)
+                    ));
+                    made += 1;
+                }
+            }
+        }
+        st.v.insert("iupapply_cases".into(), made.into());
+        let shards = cw.finish();
+        for k in 0..shards {
+            std::fs::rename(tmp.join(format!("cases_{}.v", k)), dir.join(format!("cases_{}.v", first_shard_index + k))).unwrap();
+        }
+        let _ = std::fs::remove_dir_all(&tmp);
+        st.v.insert("iupapply_first_shard".into(), first_shard_index.into());
+        st.v.insert("iupapply_shards".into(), shards.into());
+        (cw.len(), shards)
+    }
+
     pub fn draw_part(rng: &mut Rng, st: &mut Stats, thorough: bool) {
         use skrifa::outline::pen::PathStyle;
         finding_1_repro(st);
